@@ -10,13 +10,17 @@ from props.c14 import snap_val
 LEVEL = "proof"
 EXPLANATION = ("Theorems: reset s = init as whole model states for every detector and carrier; run_after_reset. This run: "
                "(pre-history, reset, post-stream) vs a fresh instance on the real code, compared bit-exactly, plus model correspondence.")
-ASSUMPTIONS = ["KSWIN: reset and fresh instances are started from the same NumPy generator state (the property's carve-out)"]
+ASSUMPTIONS = ["KSWIN: the reset instance and the fresh instance are started from the same NumPy generator state (an assumption of this check, not part of "
+               "C02's text: reset() does not re-seed the global generator, so 'identical to a new instance' can only be meant up to the generator state)"]
 
 
 def feed(cls: str, r: dets.Runner, values: list, state=None):
     if cls == "KSWIN" and state is not None:
         np.random.set_state(state)
     for v in values:
+        if v == "r":
+            r.reset()
+            continue
         r.update(v)
         if r.err is not None:
             break
@@ -33,6 +37,9 @@ def one_case(out: Outcome, rng, cls: str, p: dict, pre: list, post: list, runner
         return
     at_reset = (bool(a.det.drift), bool(getattr(a.det, "warning", False)))
     a.reset()
+    if rng.random() < 0.2:          # reset() twice in a row is still a reset
+        a.reset()
+        out.count("double_resets")
     # structural comparison with a new instance (private attributes included).  A difference is NOT a violation by itself (a cache that never influences an
     # output may legitimately survive), it directs the search: many more post-reset streams are tried for this (class, configuration, pre-history).
     extra_posts = []
@@ -160,6 +167,12 @@ def run(out: Outcome) -> None:
         for _ in range(n_cases):
             p = gen.rand_params(rng, cls)
             pre = gen.stream_for(rng, cls, rng.randint(1, 120 if not thorough else 300))
+            r0 = rng.random()
+            if r0 < 0.08:
+                pre = []                      # reset() of a detector that has not seen anything
+            elif r0 < 0.25 and len(pre) > 4:  # earlier resets inside the pre-history
+                for _ in range(rng.randint(1, 2)):
+                    pre.insert(rng.randint(1, len(pre) - 1), "r")
             post = gen.stream_for(rng, cls, rng.randint(5, 120 if not thorough else 300))
             # targeted reset points: cut the pre-history right after its last flag when there is one
             if rng.random() < 0.5:
@@ -167,6 +180,9 @@ def run(out: Outcome) -> None:
                 if probe.det is not None:
                     last = None
                     for i, v in enumerate(pre):
+                        if v == "r":
+                            probe.reset()
+                            continue
                         probe.update(v)
                         if probe.err is not None:
                             break
